@@ -198,7 +198,7 @@ func (w *Workspace) GenAll(names []string, o GenOpts) map[string]*ProgObs {
 			return
 		}
 		if status == "timeout" {
-			Parallel(len(ns), 12, func(i int) {
+			Parallel(len(ns), 6, func(i int) {
 				if isStopped() {
 					skip(ns[i : i+1])
 					return
